@@ -241,7 +241,7 @@ func findSites(v reflect.Value, off int, label string, out *[]site, depth int) {
 
 // memoKey returns the identity of "this replacement at a site of this class, decoded through this
 // entry class" or "" if the mutation touches no site, and the shape of the attacked length field
-// ("<site class>/len<0" or "/len>=0": the value the field has after the mutation), which is part
+// ("<site class>/len<0", "/len<=65535" or "/len>65535": the value the field has after the mutation), which is part
 // of the signature of an allocation failure.
 func memoKey(typ string, sites []site, seed []byte, m mutation) (key, shape string) {
 	if m.Kind == 't' {
@@ -256,11 +256,15 @@ func memoKey(typ string, sites []site, seed []byte, m mutation) (key, shape stri
 					f[j] = m.New[i]
 				}
 			}
-			shape = s.Class + "/len>=0"
-			if f[3]&0x80 != 0 {
+			switch v := binary.LittleEndian.Uint32(f[:]); {
+			case v >= 0x80000000:
 				shape = s.Class + "/len<0"
+			case v > 0xffff:
+				shape = s.Class + "/len>65535"
+			default:
+				shape = s.Class + "/len<=65535"
 			}
-			return typ + "|" + s.Class + "|" + strconv.Itoa(m.Off-s.Off) + "|" + string(m.Kind) + strconv.FormatUint(uint64(binary.LittleEndian.Uint32(m.New[:])), 16), shape
+			return s.Class + "|" + strconv.Itoa(m.Off-s.Off) + "|" + string(m.Kind) + strconv.FormatUint(uint64(binary.LittleEndian.Uint32(m.New[:])), 16), shape
 		}
 	}
 	return "", ""
